@@ -140,7 +140,8 @@ impl Prop for C11 {
                             "wrap-fallback"
                         } else if reflow_cache && w.text.contains("'''") {
                             "reflow-child-cache"
-                        } else if max1 <= w1 {
+                        } else if max1 <= w1 && oracle::line_count(&f1) == oracle::line_count(&f2) {
+                            // same number of lines, breaks at different places
                             out.count("fits_but_differs_both_fit");
                             "search-choice-depends-on-width"
                         } else {
